@@ -5,6 +5,7 @@ import vlib, sessions
 from vlib import hexs
 from props import sess_common as sc
 from props import csess_corr
+from props import cfsinfo_corr
 
 PROP_FILES = ["Props/C05.v"]
 FILL_TAG = "fill0_".encode().hex()        # names are hex-encoded in script lines
@@ -237,3 +238,5 @@ def run(rep, tier, seed):
     # image level (Model/VolRemove.v, C05_vol_remove_reclaims_all / C05_vol_cycles_keep_capacity): create ; calls ; flush / drop ;
     # remove - whole device against the extracted model after every call, Spec/Abs + Spec/Wf on the device after every remove
     csess_corr.stream(rep, tier, vlib.Rng(seed * 7919 + 5), "C05", n=12 if tier == "quick" else 240)
+    # the FS-info sector and the FAT32 status byte inside the image model (Model/VolFsInfo.v) against the library on FAT32 devices
+    cfsinfo_corr.stream(rep, tier, vlib.Rng(seed * 4447 + 505), "C05", n=10 if tier == "quick" else 280)
